@@ -221,6 +221,13 @@ func f8contexts() []f8ctx {
 		{"for3-init", nil, func(h func() *N) []*N {
 			return []*N{For3(Var("i", h()), Bin("<", Id("i"), Int(3)), Inc("i", "++"), emitE(Id("i")))}
 		}},
+		{"for3-post", nil, func(h func() *N) []*N {
+			// the post clause is an arbitrary expression whose value is dropped every iteration
+			return []*N{For3(Var("i", Int(0)), Bin("<", Id("i"), Int(2)), Expr(lead(h())), emitE(Id("i")), Inc("i", "++"))}
+		}},
+		{"for3-post-in-function", nil, func(h func() *N) []*N {
+			return []*N{FuncDecl("f", nil, Var("s", Int(0)), For3(Var("i", Int(0)), Bin("<", Id("i"), Int(3)), Expr(lead(h())), Assign(Id("s"), "+=", Id("i")), Inc("i", "++")), Return(Id("s"))), Expr(Bin("+", callE("f"), callE("f")))}
+		}},
 		{"for-cond", nil, func(h func() *N) []*N {
 			return []*N{Var("i", Int(0)), ForCond(Bin("<", Id("i"), h()), emitE(Id("i")), Inc("i", "++"))}
 		}},
